@@ -13,6 +13,13 @@
    license as parse creates it).  simplify, dedup and combine_expressions only rearrange the licenses
    of their arguments (C06 - C09), so their results are renderable when the arguments are
    (C05_renderable_is_about_licenses).
+   (0') C05_parse_render_parse: the premise on the expression is a theorem for what parse returns: over a table without
+   operator words every license of which is renderable (its key made of plain words, stored as that very symbol), whatever
+   text parses to e, the rendering of e - plain or readable - parses back to e; the same for every well-formed expression made
+   of the licenses of e (C05_derived_render_parse: the results of simplify, dedup and combine_expressions).  The unknown
+   licenses are where the work is (C05_parse_results_are_renderable): an unknown license is a run of words that Trie.tokenize
+   left unmatched, standing between two operator words; were a stored name to occur among them, the longest, leftmost such
+   occurrence would have survived the overlap filter (fo_keeps_dominant_tie) and been a token of its own.
    (1) the token sequence of the rendering - licenses, AND / OR, and a pair of parentheses around every
    compound operand, WITH pairs optionally in parentheses as render_as_readable writes them - is
    parsed back to e by the boolean parser, whatever the token strings and positions; (2) the rendered
@@ -28,7 +35,7 @@
    lower-case to themselves. *)
 Require Import Model.Split Model.Trie Model.Licensing.
 Require Import Model.Base Model.Expr Model.Split Model.LicTok Model.BoolParse Proofs.BoolParse Proofs.Render.
-Require Import Proofs.Kinds Proofs.RenderKinds Proofs.RenderWords Proofs.Resplit Proofs.Reparse.
+Require Import Proofs.Kinds Proofs.RenderKinds Proofs.RenderWords Proofs.Resplit Proofs.Reparse Proofs.ParseWf Proofs.ParseRenderable.
 
 Theorem C05_render_tokens_roundtrip : forall i0 wrap e, wf e = true ->
   bparse (tok_or (to_or i0 wrap e)) = POk e.
@@ -137,4 +144,74 @@ Proof.
   - intros n v Hin. vm_compute in Hin. repeat (destruct Hin as [Hin|Hin]; [inversion Hin; subst n v; nokw5|]). destruct Hin.
   - reflexivity.
   - exact renderable5.
+Qed.
+
+Theorem C05_parser_results_are_well_formed : forall ts e, bparse ts = POk e -> wf e = true.
+Proof. exact bparse_wf. Qed.
+Print Assumptions C05_parser_results_are_well_formed.
+
+Theorem C05_parse_results_are_renderable : forall O, is_space O 32%N = true ->
+  (lower O S_AND = s_and /\ lower O S_OR = s_or /\ lower O S_WITH = s_with /\ lower O s_lpar = s_lpar /\ lower O s_rpar = s_rpar) ->
+  (forall c, In c [97; 110; 100; 111; 114; 119; 105; 116; 104; 40; 41]%N -> is_space O c = false /\ lower_ch O c = [c]) ->
+  forall T : list entry,
+  (forall n v, In (n, v) (flat_map (entry_adds O) T) -> forall w, In w (lwords O n) -> is_keyword_str w = false) ->
+  forall text,
+  (forall n s, In (n, VSym s) (flat_map (entry_adds O) T) -> sym_ok O T (kwords O) s) ->
+  forall e, parse_tokens O T false false text = Ok e -> renderable O T (kwords O) e.
+Proof. exact parse_renderable. Qed.
+Print Assumptions C05_parse_results_are_renderable.
+
+Theorem C05_parse_render_parse : forall O, is_space O 32%N = true ->
+  (forall c, In c [65; 78; 68; 79; 82; 87; 73; 84; 72; 40; 41]%N -> is_space O c = false) ->
+  (lower O S_AND = s_and /\ lower O S_OR = s_or /\ lower O S_WITH = s_with /\ lower O s_lpar = s_lpar /\ lower O s_rpar = s_rpar) ->
+  (forall c, In c [97; 110; 100; 111; 114; 119; 105; 116; 104; 40; 41]%N -> is_space O c = false /\ lower_ch O c = [c]) ->
+  forall T : list entry,
+  (forall n v, In (n, v) (flat_map (entry_adds O) T) -> forall w, In w (lwords O n) -> is_keyword_str w = false) ->
+  (forall n s, In (n, VSym s) (flat_map (entry_adds O) T) -> sym_ok O T (kwords O) s) ->
+  forall text wrap e, parse_tokens O T false false text = Ok e ->
+  parse_tokens O T false false (render_with key wrap e) = Ok e.
+Proof. exact parse_render_parse. Qed.
+Print Assumptions C05_parse_render_parse.
+
+Theorem C05_derived_render_parse : forall O, is_space O 32%N = true ->
+  (forall c, In c [65; 78; 68; 79; 82; 87; 73; 84; 72; 40; 41]%N -> is_space O c = false) ->
+  (lower O S_AND = s_and /\ lower O S_OR = s_or /\ lower O S_WITH = s_with /\ lower O s_lpar = s_lpar /\ lower O s_rpar = s_rpar) ->
+  (forall c, In c [97; 110; 100; 111; 114; 119; 105; 116; 104; 40; 41]%N -> is_space O c = false /\ lower_ch O c = [c]) ->
+  forall T : list entry,
+  (forall n v, In (n, v) (flat_map (entry_adds O) T) -> forall w, In w (lwords O n) -> is_keyword_str w = false) ->
+  (forall n s, In (n, VSym s) (flat_map (entry_adds O) T) -> sym_ok O T (kwords O) s) ->
+  forall text wrap e e', parse_tokens O T false false text = Ok e -> wf e' = true -> incl (literals e') (literals e) ->
+  parse_tokens O T false false (render_with key wrap e') = Ok e'.
+Proof. exact derived_render_parse. Qed.
+Print Assumptions C05_derived_render_parse.
+
+(* non-vacuity: the table T5 meets the premises, and a text with odd spacing, an alias and a two-word unknown license parses *)
+Definition tx5 : str := [71; 78; 85; 32; 32; 103; 112; 108; 32; 111; 114; 32; 40; 109; 105; 116; 32; 119; 105; 116; 104; 32; 99; 108; 97; 115; 115; 112; 97; 116; 104; 32; 97; 110; 100; 32; 122; 122; 32; 32; 121; 121; 41]%N.
+Example tx5_parses : parse_tokens ascii_oracle T5 false false tx5 = Ok e5.
+Proof. vm_compute. reflexivity. Qed.
+
+Ltac known5 sy := split; [|split];
+  [ split; [reflexivity|]; split; [discriminate|]; apply Forall_forall; intros w Hw; vm_compute in Hw; repeat (destruct Hw as [<-|Hw]; [ctext5|]); destruct Hw
+  | nokw5
+  | vm_compute; reflexivity ].
+
+Example table5_ok : forall n s, In (n, VSym s) (flat_map (entry_adds ascii_oracle) T5) -> sym_ok ascii_oracle T5 (kwords ascii_oracle) s.
+Proof.
+  intros n s Hin. vm_compute in Hin.
+  destruct Hin as [H|[H|[H|[H|[]]]]]; inversion H; subst n s.
+  - known5 gpl5.
+  - known5 gpl5.
+  - known5 mit5.
+  - known5 cp5.
+Qed.
+
+Example C05_example_parse_render_parse : forall wrap e, parse_tokens ascii_oracle T5 false false tx5 = Ok e ->
+  parse_tokens ascii_oracle T5 false false (render_with key wrap e) = Ok e.
+Proof.
+  intros wrap e. apply (C05_parse_render_parse ascii_oracle eq_refl).
+  - intros c Hc. simpl in Hc. repeat (destruct Hc as [<-|Hc]; [reflexivity|]). destruct Hc.
+  - repeat split; reflexivity.
+  - intros c Hc. simpl in Hc. repeat (destruct Hc as [<-|Hc]; [split; reflexivity|]). destruct Hc.
+  - intros n v Hin. vm_compute in Hin. repeat (destruct Hin as [Hin|Hin]; [inversion Hin; subst n v; nokw5|]). destruct Hin.
+  - exact table5_ok.
 Qed.
